@@ -67,6 +67,20 @@ pub fn seeds(seed: u64, quick: bool) -> Vec<Seed> {
         };
         out.push(seed_from_bytes(&format!("builder-dd-{name}"), build(&spec).0, None, false, &[]));
     }
+    // entries without content: empty stored and deflated files, a directory (their declared CRC is 0)
+    {
+        let calls = vec![
+            Call::StartFile { name: "empty-stored".into(), opts: FOpts::m(0) },
+            Call::StartFile { name: "empty-deflated".into(), opts: FOpts::m(8) },
+            Call::AddDir { name: "dir".into(), opts: FOpts::m(0) },
+            Call::StartFile { name: "after".into(), opts: FOpts::m(0) },
+            Call::Write(a.clone()),
+            Call::Finish,
+        ];
+        let (r, bytes) = exec(&calls, &[]);
+        assert!(r.iter().all(|x| x.is_ok()));
+        out.push(seed_from_bytes("writer-empties", bytes, None, true, &[]));
+    }
     // ZipCrypto written by the crate
     let enc = |m: u16| FOpts { password: Some(PW.to_vec()), ..FOpts::m(m) };
     let calls = vec![Call::StartFile { name: "a".into(), opts: enc(0) }, Call::Write(a.clone()), Call::StartFile { name: "b".into(), opts: enc(8) }, Call::Write(b.clone()), Call::Finish];
@@ -266,8 +280,8 @@ pub fn run(args: &Args) -> i32 {
     let thorough = args.tier.thorough();
     let all = seeds(seed, false);
     let bufs: Vec<usize> = vec![1, 2, 7, 4096, 0];
-    ctx.rule = "E-PROD over damage to seed archives (two entries of 24 and ~60 bytes each; writer-made stored/deflate/bzip2/zstd and ZipCrypto, builder-made with data descriptors, AE-1, AE-2): \
-        every one of the 255 other byte values at every offset of every entry's data region and of its CRC field (central, and local for the streaming route) — in the quick tier the AES seeds get the 8 single-bit flips per byte instead; \
+    ctx.rule = "E-PROD over damage to seed archives (two entries of 24 and ~60 bytes each, plus one seed of empty stored/deflated files and a directory; writer-made stored/deflate/bzip2/zstd and ZipCrypto, builder-made with data descriptors, AE-1, AE-2): \
+        every one of the 255 other byte values at every offset of every entry's data region and of its CRC and size fields (central, and local for the streaming route) — in the quick tier the AES seeds get the 8 single-bit flips per byte instead; \
         every payload truncation length; payloads of the two entries swapped; each damaged archive is read entry by entry through the seekable and (where supported) the streaming reader with caller \
         buffers {1, 2, 7, 4096, read_to_end} with and without interposed empty reads. Oracle: a read sequence that ends in a clean EOF returned bytes whose CRC-32 equals the declared one (AE-2 exempt). \
         distinct_nontrivial = distinct damaged archives (counted by the enumerator; positions x values never repeat)."
@@ -290,6 +304,15 @@ pub fn run(args: &Args) -> i32 {
             if s.streamable {
                 for p in r.3..r.3 + 4 {
                     items.push((si, p, "local-crc"));
+                }
+            }
+            // declared sizes (central: crc+4 csize, crc+8 usize; local likewise): a lying size must not turn into a clean read of other bytes
+            for p in r.2 + 4..r.2 + 12 {
+                items.push((si, p, "central-size"));
+            }
+            if s.streamable {
+                for p in r.3 + 4..r.3 + 12 {
+                    items.push((si, p, "local-size"));
                 }
             }
         }
@@ -367,7 +390,7 @@ pub fn run(args: &Args) -> i32 {
                 continue;
             }
             let outs = pass(&s.bytes, s.password.as_deref(), stream, 7, false, &ae2);
-            if outs.len() != 2 || outs.iter().any(|o| *o != (Out::Clean { ok: true })) {
+            if outs.len() != s.regions.len() || outs.iter().any(|o| *o != (Out::Clean { ok: true })) {
                 ctx.machinery(format!("undamaged seed {} does not read cleanly: {outs:?}", s.label));
             }
             st.count("undamaged_passes", 1);
